@@ -48,6 +48,11 @@ BASIC = [
     G('suppress-str', [Rule('M', S(Sup(Str('a')), Asg('x', '=', INT)))]),
     G('suppress-match-rule', [Rule('M', Asg('vs', '+=', Ref('V'))),
                               Rule('V', S(Sup(Str('<')), INT, Sup(Str('>'))))]),
+    # the same literal once suppressed and once visible / assigned
+    G('same-literal-suppressed-and-assigned', [Rule('M', S(Sup(Str('-')), Asg('n', '=', ID), Opt(Asg('s', '=', Str('-')))))]),
+    G('same-literal-suppressed-in-match-rule', [Rule('M', Asg('cs', '+=', Ref('C'))),
+                                                Rule('C', S(Sup(Str('|')), ID, Str('|')))]),
+    G('same-literal-suppressed-and-bool', [Rule('M', S(Asg('on', '?=', Str('!')), Asg('n', '=', INT), Sup(Str('!'))))]),
     G('suppress-in-choice', [Rule('M', S(A(Sup(Str('a')), Str('b')), Asg('x', '=', INT)))],
       tags=['nodeless']),
     G('optional-in-choice', [Rule('M', S(A(Opt(Str('a')), Str('b')), Asg('x', '=', INT)))],
